@@ -153,7 +153,13 @@ def ob_compute(W, Ls, Ks, order, iscsd, backend, win_kind, prior=False):
     if prior:
         # an earlier analysis in the same process (same class objects, same window function, another shape parameter / other data):
         # whatever it leaves behind must not leak into the analysis under test
-        a0 = _mk(W, G, N, order, iscsd, backend, win_kind, win_stub, 1.25, fs, W.reals("px", N), W.reals("py", N) if iscsd else None)
+        if win_kind == "kaiser":
+            prior_win = win_stub
+        else:
+            # a DIFFERENT user-supplied window callable (both are 'custom' windows as far as names go)
+            def prior_win(M, *beta):
+                return oarr([SR(z3.Real("priorwin_%d_%d" % (M, i))) for i in range(int(M))])
+        a0 = _mk(W, G, N, order, iscsd, backend, win_kind, prior_win, 1.25, fs, W.reals("px", N), W.reals("py", N) if iscsd else None)
         a0._plan_cache = mkplan()
         a0.compute()
         rec.calls.clear()
@@ -207,8 +213,8 @@ def _concrete_compute(W, Ls, Ks, order, iscsd, backend, win_kind, N, fs, fvals, 
     try:
         if prior:
             A.SpectrumAnalyzer(rng.standard_normal((2, Nr)) if iscsd else rng.standard_normal(Nr), fsr, order=order, backend=backend,
-                               win=("kaiser" if win_kind == "kaiser" else "hann"), psll=60, scheduler=sched, olap=0.5).compute()
-        a = A.SpectrumAnalyzer(data, fsr, order=order, backend=backend, win=("kaiser" if win_kind == "kaiser" else "hann"), psll=120, scheduler=sched, olap=0.5)
+                               win=("kaiser" if win_kind == "kaiser" else rnp.blackman), psll=60, scheduler=sched, olap=0.5).compute()
+        a = A.SpectrumAnalyzer(data, fsr, order=order, backend=backend, win=("kaiser" if win_kind == "kaiser" else (rnp.hanning if prior else "hann")), psll=120, scheduler=sched, olap=0.5)
         res = a.compute()
         alpha = a.config.get("alpha")
         for j, L in enumerate(Ls):
